@@ -60,6 +60,8 @@ def gen_plan(seed, tier):
   # tree: switch i>1 hangs off a random earlier switch
   cfg = {"nsw": nsw, "max_buffers": r.pick([0, 1, 4, 100]),
          "msl": r.pick([14, 128, 128, 1500]),
+         # the component's own option: forward link-local frames like any other
+         "transparent": r.chance(0.2),
          "segment": r.chance(0.5), "delay": r.chance(0.5),
          "recv_mode": r.pick(["all", "all", "choose"]),
          "faults": r.chance(0.25), "link_delay": r.pick([0, 0, 3])}
@@ -180,7 +182,9 @@ def _drive(sim, plan, known, hit):
   net.nexus.miss_send_len = cfg["msl"]
   net.link_delay_ticks = cfg.get("link_delay", 0)
   L2._flood_delay = 0
-  L2.launch()
+  L2.launch(transparent=bool(cfg.get("transparent")))
+  if cfg.get("transparent"):
+    sim.probes["transparent_mode"] += 1
   nsw = cfg["nsw"]
   for i in range(1, nsw + 1):
     net.add_switch(i, cfg["nports"][str(i)], max_buffers=cfg["max_buffers"])
@@ -249,7 +253,7 @@ def _drive(sim, plan, known, hit):
         ever[i].setdefault(src, set()).add(in_port)
         filtered = et == 0x88cc or (dst[:5] == b"\x01\x80\xc2\x00\x00"
                                     and dst[5] <= 0x0f)
-        if filtered:
+        if filtered and not cfg.get("transparent"):
           sim.probes["filtered"] += 1
           exp = set()
         elif dst[0] & 1:
